@@ -32,6 +32,10 @@ type c29Case struct {
 	Topo   topoSpec  `json:"topo"`
 	IDBase uint64    `json:"id_base"` // the process-wide ID generator starts here
 	Msgs   []msgSpec `json:"msgs"`
+	// Ckpt != nil: after the plain run the case is run again inside a real
+	// simulation.Simulation, checkpointed at a cut, rebuilt in another process,
+	// loaded and resumed (see c29ckpt_test.go).
+	Ckpt *ckptSpec `json:"ckpt,omitempty"`
 }
 
 const c29FlitBudget = 1500
@@ -46,7 +50,17 @@ func expFlits(bytes, flit int, ovNum, ovShift int) int {
 	return (enc + flit - 1) / flit
 }
 
-func genC29(rt *rapid.T) c29Case { return genC29Sized(rt, c29FlitBudget, 300) }
+func genC29(rt *rapid.T) c29Case {
+	c := genC29Sized(rt, c29FlitBudget, 300)
+	if rapid.IntRange(0, c29CkptOneIn-1).Draw(rt, "ckpt") == 0 {
+		c.Ckpt = &ckptSpec{
+			Mode:  rapid.SampledFrom([]string{"reassembly", "reassembly", "reassembly", "any"}).Draw(rt, "cutMode"),
+			Sel:   rapid.IntRange(0, 999).Draw(rt, "cutSel"),
+			Plain: rapid.Bool().Draw(rt, "plainReg"),
+		}
+	}
+	return c
+}
 
 // genC29Sized: at most maxMsgs messages and flitBudget flits.
 func genC29Sized(rt *rapid.T, flitBudget, maxMsgs int) c29Case {
@@ -129,20 +143,23 @@ type c29Result struct {
 	timedOut bool
 	estPs    uint64 // the serial estimate the time bound is derived from
 	endPs    uint64 // virtual time when the engine went idle
+	bound    timing.VTimeInPicoSec
 }
 
 // c29Execute builds the network, loads the scripts, runs the engine until it
 // is idle. Panics of the code under test are returned as (sig,msg).
 func c29Execute(c c29Case) (res c29Result, sig, msg string) { return c29ExecuteWith(c, nil) }
 
-// c29ExecuteWith additionally calls instr after the network is built and before
-// any traffic is loaded (C03 attaches its fingerprint hooks there).
-func c29ExecuteWith(c c29Case, instr func(reg *capReg, b *built)) (res c29Result, sig, msg string) {
+// c29Setup resets the process-wide ID generator, obtains the registrar (mkReg
+// runs after the reset, so a simulation built there registers the live
+// generator), builds the network "Net" in it, attaches the recorders and loads
+// the scripts into the devices' State. Nothing is scheduled yet.
+func c29Setup(c c29Case, mkReg func() *capReg) (res c29Result, sig, msg string) {
 	timing.ResetIDGenerator()
 	timing.GetIDGenerator()
 	timing.SetIDGeneratorNextID(c.IDBase)
 
-	reg := newCapReg()
+	reg := mkReg()
 	var b *built
 	ok, sig, msg := guard(func() {
 		h := newConnHolder(c.Conn, reg)
@@ -153,9 +170,6 @@ func c29ExecuteWith(c c29Case, instr func(reg *capReg, b *built)) (res c29Result
 	}
 	res.built = b
 	res.reg = reg
-	if instr != nil {
-		instr(reg, b)
-	}
 
 	res.rec = &recorder{engine: reg.engine}
 	res.netRec = &recorder{engine: reg.engine}
@@ -186,10 +200,7 @@ func c29ExecuteWith(c c29Case, instr func(reg *capReg, b *built)) (res c29Result
 			}
 		}
 		res.sent = append(res.sent, meta)
-		b.agents[m.SD].queue = append(b.agents[m.SD].queue, trafficMsg{MsgMeta: meta})
-	}
-	for _, a := range b.agents {
-		a.TickLater()
+		b.agents[m.SD].push(meta)
 	}
 
 	// Virtual-time bound. est = a pessimistic serial estimate in network
@@ -206,9 +217,15 @@ func c29ExecuteWith(c c29Case, instr func(reg *capReg, b *built)) (res c29Result
 	est := uint64(4*flits + 28*len(c.Msgs) + 600 + (b.model.N+2)*(maxLat+8))
 	period := uint64(1_000_000_000_000) / (uint64(c.Conn.FreqMHz) * 1_000_000)
 	res.estPs = est * period
-	bound := timing.VTimeInPicoSec(25 * est * max(period, 2000))
+	res.bound = timing.VTimeInPicoSec(25 * est * max(period, 2000))
+	return res, "", ""
+}
 
-	ok, sig, msg = guard(func() {
+// c29RunToIdle runs the engine up to the virtual-time bound and decides whether
+// it went idle.
+func c29RunToIdle(res *c29Result) (sig, msg string) {
+	reg, bound := res.reg, res.bound
+	ok, sig, msg := guard(func() {
 		if err := reg.engine.RunUntil(bound); err != nil {
 			res.runErr = err.Error()
 		}
@@ -222,9 +239,119 @@ func c29ExecuteWith(c c29Case, instr func(reg *capReg, b *built)) (res c29Result
 		res.endPs = uint64(reg.engine.CurrentTime())
 	})
 	if !ok {
-		return res, "run:" + sig, msg
+		return "run:" + sig, msg
 	}
-	return res, "", ""
+	return "", ""
+}
+
+// c29ExecuteWith additionally calls instr after the network is built and before
+// any traffic is scheduled (C03 attaches its fingerprint hooks there).
+func c29ExecuteWith(c c29Case, instr func(reg *capReg, b *built)) (res c29Result, sig, msg string) {
+	res, sig, msg = c29Setup(c, newCapReg)
+	if sig != "" {
+		return res, sig, msg
+	}
+	if instr != nil {
+		instr(res.reg, res.built)
+	}
+	for _, a := range res.built.agents {
+		a.TickLater()
+	}
+	sig, msg = c29RunToIdle(&res)
+	return res, sig, msg
+}
+
+// dlvEvent is one port event as plain data (so that the part of a run that
+// happened in another process can be judged together with this process' part).
+type dlvEvent struct {
+	T         uint64            `json:"t"`
+	Port      string            `json:"port"`
+	Recv      bool              `json:"recv"` // false: the device handed the message to its port
+	Type      string            `json:"type"`
+	Assembled bool              `json:"assembled"` // the object is a packetization.AssembledMsg
+	Meta      messaging.MsgMeta `json:"meta"`
+}
+
+func toDlv(events []portEvent) []dlvEvent {
+	out := make([]dlvEvent, 0, len(events))
+	for _, e := range events {
+		d := dlvEvent{T: uint64(e.Time), Port: e.Port, Recv: e.Pos == messaging.HookPosPortMsgRecvd, Type: fmt.Sprintf("%T", e.Msg)}
+		if e.Msg != nil {
+			d.Meta = e.Msg.Meta()
+		}
+		_, d.Assembled = e.Msg.(packetization.AssembledMsg)
+		out = append(out, d)
+	}
+	return out
+}
+
+// c29Judge is the C29 oracle over the device-port events of one history
+// (uninterrupted, or the part before a checkpoint followed by the part after
+// the resume). It returns the delivery count per message ID and whether the
+// history was accepted (false: s.Fail returned for a listed finding).
+// sigPrefix/where distinguish the checkpoint leg in signatures and messages.
+func c29Judge(s *kit.Session, f kit.Failer, c c29Case, sigPrefix, where string, sent []messaging.MsgMeta, events []dlvEvent,
+	unsent int, m netModel, endPs uint64) (delivered map[uint64]int, live, ok bool) {
+	byID := map[uint64]int{}
+	for i, mm := range sent {
+		byID[mm.ID] = i
+	}
+	sentAt := map[uint64]bool{}
+	delivered = map[uint64]int{}
+	for _, e := range events {
+		if !e.Recv {
+			sentAt[e.Meta.ID] = true
+			continue
+		}
+		if !e.Assembled {
+			s.Fail(f, c, sigPrefix+"delivered-type", "%sport %s received a %s, documented form is packetization.AssembledMsg", where, e.Port, e.Type)
+			return delivered, false, false
+		}
+		meta := e.Meta
+		i, known := byID[meta.ID]
+		if !known {
+			s.Fail(f, c, sigPrefix+"phantom", "%sport %s received message ID %d that no device sent: %+v", where, e.Port, meta.ID, meta)
+			return delivered, false, false
+		}
+		if string(meta.Dst) != e.Port || sent[i].Dst != meta.Dst {
+			s.Fail(f, c, sigPrefix+"wrong-port", "%smessage %+v was delivered at port %s", where, sent[i], e.Port)
+			return delivered, false, false
+		}
+		if meta != sent[i] {
+			s.Fail(f, c, sigPrefix+"metadata:"+diffMeta(sent[i], meta), "%ssent %+v, delivered %+v", where, sent[i], meta)
+			return delivered, false, false
+		}
+		if !sentAt[meta.ID] {
+			s.Fail(f, c, sigPrefix+"before-send", "%smessage %d delivered before its device handed it to the port", where, meta.ID)
+			return delivered, false, false
+		}
+		delivered[meta.ID]++
+		if delivered[meta.ID] > 1 {
+			s.Fail(f, c, sigPrefix+"duplicate", "%smessage %+v delivered %d times", where, meta, delivered[meta.ID])
+			return delivered, false, false
+		}
+	}
+
+	missing := len(sent) - len(delivered)
+	tree := m.isTree()
+	live = c.Conn.Kind == "mesh" || tree
+	if live && (missing > 0 || unsent > 0) {
+		var first messaging.MsgMeta
+		for _, mm := range sent {
+			if delivered[mm.ID] == 0 {
+				first = mm
+				break
+			}
+		}
+		kindSig := c.Conn.Kind
+		if tree && kindSig != "mesh" {
+			kindSig += "-tree"
+		}
+		s.Fail(f, c, sigPrefix+"undelivered:"+kindSig, "%sengine idle at %d ps with %d of %d messages undelivered (%d never left their device); first: %+v",
+			where, endPs, missing, len(sent), unsent, first)
+		return delivered, live, false
+	}
+	return delivered, live, true
 }
 
 func TestC29Delivery(t *testing.T) {
@@ -243,8 +370,20 @@ func TestC29Delivery(t *testing.T) {
 	s.Assume("cyclic switch graphs (rings, cliques, NVLink hybrids): only the safety part is judged; undelivered messages there are counted in class 'cyclic-incomplete'")
 
 	maxRatio := 0
+	ck := newCkptLeg(t, s)
+	defer ck.close()
 	run := func(f kit.Failer, c c29Case) {
-		res, sig, msg := c29Execute(c)
+		var probe *cutProbe
+		var instr func(reg *capReg, b *built)
+		if c.Ckpt != nil {
+			// the plain run doubles as the probe that finds the instants a
+			// checkpoint can be cut at
+			instr = func(reg *capReg, b *built) {
+				probe = &cutProbe{eps: b.eps}
+				reg.engine.AcceptHook(probe)
+			}
+		}
+		res, sig, msg := c29ExecuteWith(c, instr)
 		if sig != "" {
 			s.Fail(f, c, sig, "%s", msg)
 			return
@@ -258,71 +397,16 @@ func TestC29Delivery(t *testing.T) {
 			s.Extra("max_run_length_percent_of_estimate(bound=2500)", r)
 		}
 
-		byID := map[uint64]int{}
-		for i, m := range res.sent {
-			byID[m.ID] = i
-		}
-		sentAt := map[uint64]bool{}
-		delivered := map[uint64]int{}
-		for _, e := range res.rec.events {
-			switch e.Pos {
-			case messaging.HookPosPortMsgSend:
-				sentAt[e.Msg.Meta().ID] = true
-			case messaging.HookPosPortMsgRecvd:
-				am, isAssembled := e.Msg.(packetization.AssembledMsg)
-				if !isAssembled {
-					s.Fail(f, c, "delivered-type", "port %s received a %T, documented form is packetization.AssembledMsg", e.Port, e.Msg)
-					return
-				}
-				meta := am.Meta()
-				i, known := byID[meta.ID]
-				if !known {
-					s.Fail(f, c, "phantom", "port %s received message ID %d that no device sent: %+v", e.Port, meta.ID, meta)
-					return
-				}
-				if string(meta.Dst) != e.Port || res.sent[i].Dst != meta.Dst {
-					s.Fail(f, c, "wrong-port", "message %+v was delivered at port %s", res.sent[i], e.Port)
-					return
-				}
-				if meta != res.sent[i] {
-					s.Fail(f, c, "metadata:"+diffMeta(res.sent[i], meta), "sent %+v, delivered %+v", res.sent[i], meta)
-					return
-				}
-				if !sentAt[meta.ID] {
-					s.Fail(f, c, "before-send", "message %d delivered before its device handed it to the port", meta.ID)
-					return
-				}
-				delivered[meta.ID]++
-				if delivered[meta.ID] > 1 {
-					s.Fail(f, c, "duplicate", "message %+v delivered %d times", meta, delivered[meta.ID])
-					return
-				}
-			}
-		}
-
 		unsent := 0
 		for _, a := range b.agents {
-			unsent += len(a.queue)
+			unsent += a.unsent()
 		}
-		missing := len(res.sent) - len(delivered)
-		tree := b.model.isTree()
-		live := c.Conn.Kind == "mesh" || tree
-		if live && (missing > 0 || unsent > 0) {
-			var first messaging.MsgMeta
-			for _, m := range res.sent {
-				if delivered[m.ID] == 0 {
-					first = m
-					break
-				}
-			}
-			kindSig := c.Conn.Kind
-			if tree && kindSig != "mesh" {
-				kindSig += "-tree"
-			}
-			s.Fail(f, c, "undelivered:"+kindSig, "engine idle at %d ps with %d of %d messages undelivered (%d never left their device); first: %+v",
-				res.built.agents[0].CurrentTime(), missing, len(res.sent), unsent, first)
+		events := toDlv(res.rec.events)
+		delivered, live, ok := c29Judge(s, f, c, "", "", res.sent, events, unsent, b.model, res.endPs)
+		if !ok {
 			return
 		}
+		missing := len(res.sent) - len(delivered)
 
 		// --- classification, from what happened ---
 		st := c29Classify(c, res, delivered)
@@ -343,7 +427,15 @@ func TestC29Delivery(t *testing.T) {
 				classes = append(classes, name)
 			}
 		}
-		s.Note(c, maxHops >= 2 && multiFlit && (interleaved || backpressure), classes...)
+		nontrivial := maxHops >= 2 && multiFlit && (interleaved || backpressure)
+		if c.Ckpt != nil {
+			ckClasses, ckOK := ck.run(f, c, res, events, delivered, probe)
+			if !ckOK {
+				return
+			}
+			classes = append(classes, ckClasses...)
+		}
+		s.Note(c, nontrivial, classes...)
 	}
 
 	var c c29Case
@@ -409,11 +501,11 @@ func c29Classify(c c29Case, res c29Result, delivered map[uint64]int) (st c29Stat
 		}
 	}
 	for i, a := range b.agents {
-		if a.blocked > 0 {
+		if a.State.Blocked > 0 {
 			st.backpressure = true
 		}
 		sp := c.Topo.Devs[i].Agent
-		if (sp.DrainPeriod > 1 || sp.InitStall > 0) && a.received > 0 {
+		if (sp.DrainPeriod > 1 || sp.InitStall > 0) && a.State.Received > 0 {
 			st.stalled = true
 		}
 	}
